@@ -233,16 +233,17 @@ func (g *c12Gen) GenerateString(int, string) string { return "" }
 func c12Payloader(c *mc.Ctx) {
 	flexible := c.Bool()
 	mtu := mc.From(c, []int{4, 11, 12, 13, 14, 20, 100, 1200})
-	src := c.Pick(7) // 0-3: InitialPictureIDFn {0,1,0x7FFE,0x7FFF}; 4-6: random seam answers {0,1,0x7FFE}
+	src := c.Pick(11) // 0-3: InitialPictureIDFn {0,1,0x7FFE,0x7FFF}; 4-6: random seam answers {0,1,0x7FFE}; 7-10: InitialPictureIDFn {0x8000,0x8001,0xFFFE,0xFFFF} (only the low 15 bits count)
 	h := c12Frame(c)
 	lenClass := c.Pick(5)
 
 	p := &codecs.VP9Payloader{FlexibleMode: flexible}
 	var gen *c12Gen
 	startID := 0
-	if src < 4 {
-		startID = []int{0, 1, 0x7FFE, 0x7FFF}[src]
-		v := uint16(startID)
+	if src < 4 || src >= 7 {
+		raw := []int{0, 1, 0x7FFE, 0x7FFF, 0, 0, 0, 0x8000, 0x8001, 0xFFFE, 0xFFFF}[src]
+		startID = raw & 0x7FFF
+		v := uint16(raw)
 		p.InitialPictureIDFn = func() uint16 { return v }
 	} else {
 		gen = &c12Gen{answer: []int{0, 1, 0x7FFE}[src-4]}
